@@ -100,6 +100,7 @@ def mk_exc(name: str, args=()) -> ExcV:
 
 
 from .mapseq import LazyComp as LazyComp_   # mapseq (C19x)
+from . import eagergen   # eager generators (C19x)
 
 
 class Frame:
@@ -868,6 +869,12 @@ class Path:
         except LazyComp_ as e:   # mapseq
             return e.seq
         return out
+
+    def ev_Yield(self, node, fr):   # eagergen
+        return eagergen.ev_Yield(self, node, fr)
+
+    def ev_YieldFrom(self, node, fr):   # eagergen
+        return eagergen.ev_YieldFrom(self, node, fr)
 
     def ev_Starred(self, node, fr):
         raise Unsupported('starred')
@@ -1842,6 +1849,13 @@ class Path:
             fr = Frame(info.module, info, info.cls, parent=f.closure)
             self.new_dict(fr.locals)
             self.bind_args(info.node.args, args, kwargs, fr, info.qualname, Frame(info.module, cls=info.cls, parent=f.closure))
+            if eagergen.is_generator(info):   # eagergen: a generator function yields a list (C19x)
+                def body():
+                    try:
+                        self.exec_block(info.node.body, fr)
+                    except _Return:
+                        pass
+                return eagergen.run(self, info, fr, body)
             try:
                 self.exec_block(info.node.body, fr)
             except _Return as r:
